@@ -48,10 +48,13 @@ type scenario struct {
 	CancelAt   int          `json:"cancel_at"` // -1 before any completion, k after the k-th, 99 never
 	HedgeTicks map[int]bool `json:"hedge_ticks"`
 	Delay      bool         `json:"delay"` // legacy Do: delayed extra requests
+	// the cleanup callback blocks; the harness lets it go on at once, except in a set that has already
+	// finished while another set is still undecided (its worker is then still busy when the other set fails)
+	SlowCleanup bool `json:"slow_cleanup"`
 }
 
 func (s scenario) String() string {
-	return fmt.Sprintf("variant=%s sets=%+v minimize=%v hedge=%v sorter=%v outcomes=%v order=%v cancelAt=%d hedgeTicks=%v delay=%v", s.Variant, s.Sets, s.Minimize, s.Hedge, s.Sorter, s.Outcomes, s.Prio, s.CancelAt, s.HedgeTicks, s.Delay)
+	return fmt.Sprintf("variant=%s sets=%+v minimize=%v hedge=%v sorter=%v outcomes=%v order=%v cancelAt=%d hedgeTicks=%v delay=%v slowCleanup=%v", s.Variant, s.Sets, s.Minimize, s.Hedge, s.Sorter, s.Outcomes, s.Prio, s.CancelAt, s.HedgeTicks, s.Delay, s.SlowCleanup)
 }
 
 const hedgeDelay = 10 * time.Second
@@ -167,6 +170,7 @@ type result struct {
 	failure    string
 	class      string
 	nontrivial bool
+	heldAcross bool // a finished set's worker was still inside the cleanup callback while another step ran
 }
 
 func execute(t *testing.T, sc scenario) (res result) {
@@ -218,6 +222,18 @@ func execute(t *testing.T, sc scenario) (res result) {
 		if sc.Sorter {
 			cfg.ZoneSorter = func(zs []string) []string { sort.Strings(zs); return zs }
 		}
+		// the errors the calls will return are fixed up front, so that the model can be advanced before
+		// a call is released
+		errsPre := map[int]error{}
+		for i, o := range sc.Outcomes {
+			switch o {
+			case "terminal":
+				errsPre[i] = termErr{fmt.Sprint("terminal ", i)}
+			case "err":
+				errsPre[i] = fmt.Errorf("err %d", i)
+			}
+		}
+		noPark := false // set (under mu) once the step being executed decides the whole execution
 		call := func(c context.Context, d *ring.InstanceDesc, cf context.CancelCauseFunc) (int, error) {
 			i := idx(d)
 			ch := make(chan struct{})
@@ -233,25 +249,61 @@ func execute(t *testing.T, sc scenario) (res result) {
 			mu.Lock()
 			defer mu.Unlock()
 			finished[i] = true
-			switch sc.Outcomes[i] {
-			case "ok":
+			if sc.Outcomes[i] == "ok" {
 				return i, nil
-			case "terminal":
-				e := termErr{fmt.Sprint("terminal ", i)}
-				errsReturned[i] = e
-				return 0, e
 			}
-			e := fmt.Errorf("err %d", i)
-			errsReturned[i] = e
-			return 0, e
+			errsReturned[i] = errsPre[i]
+			return 0, errsPre[i]
 		}
+		type heldCleanup struct {
+			v  int
+			ch chan struct{}
+		}
+		var heldCleanups []heldCleanup
 		cleanup := func(v int) {
 			mu.Lock()
 			cleaned[v]++
+			if !sc.SlowCleanup || noPark {
+				mu.Unlock()
+				return
+			}
+			ch := make(chan struct{})
+			heldCleanups = append(heldCleanups, heldCleanup{v, ch})
 			mu.Unlock()
+			<-ch
+		}
+		// releaseCleanups lets blocked cleanup callbacks return: all of them, or only those of sets that
+		// are still undecided in the model (so that their reactions are complete before they are checked)
+		releaseCleanups := func(all bool) {
+			for k := 0; k < 8*total+8; k++ {
+				vx.Wait()
+				mu.Lock()
+				var chs []chan struct{}
+				var keep []heldCleanup
+				for _, h := range heldCleanups {
+					if si, ok := setOf[h.v]; all || !ok || !models[si].done {
+						chs = append(chs, h.ch)
+					} else {
+						keep = append(keep, h)
+					}
+				}
+				heldCleanups = keep
+				held := len(keep)
+				mu.Unlock()
+				if held > 0 {
+					res.heldAcross = true
+				}
+				if len(chs) == 0 {
+					return
+				}
+				for _, c := range chs {
+					close(c)
+				}
+			}
 		}
 		releaseAll := func() {
 			for k := 0; k < 4*total+4; k++ {
+				releaseCleanups(true)
 				vx.Wait()
 				mu.Lock()
 				var chs []chan struct{}
@@ -338,6 +390,8 @@ func execute(t *testing.T, sc scenario) (res result) {
 			return out
 		}
 		checkReturn := func(step int) {
+			releaseCleanups(overall.done)
+			vx.Wait()
 			mu.Lock()
 			defer mu.Unlock()
 			if overall.done != returned {
@@ -402,7 +456,15 @@ func execute(t *testing.T, sc scenario) (res result) {
 		}
 		evaluate(false)
 		cancelled := false
+		if overall.done {
+			mu.Lock()
+			noPark = true
+			mu.Unlock()
+		}
 		if sc.CancelAt == -1 && !overall.done {
+			mu.Lock()
+			noPark = true
+			mu.Unlock()
 			cancel(cause)
 			cancelled = true
 			vx.Wait()
@@ -522,20 +584,25 @@ func execute(t *testing.T, sc scenario) (res result) {
 				break
 			}
 			before := started()
-			close(ch)
-			vx.Wait()
 			m := models[setOf[pick]]
 			var lastErr error
 			if sc.Outcomes[pick] == "ok" {
 				m.succ[pick] = true
 			} else {
 				m.failed[pick] = true
-				mu.Lock()
-				lastErr = errsReturned[pick]
-				mu.Unlock()
+				lastErr = errsPre[pick]
 			}
 			m.decide(lastErr)
 			evaluate(cancelled)
+			if overall.done {
+				// the code under test may run the callback under its own lock once everything is decided:
+				// a blocked callback would then keep the other workers off that lock for good
+				mu.Lock()
+				noPark = true
+				mu.Unlock()
+			}
+			close(ch)
+			vx.Wait()
 			checkReturn(step)
 			if !overall.done && sc.Minimize {
 				after := started()
@@ -567,6 +634,9 @@ func execute(t *testing.T, sc scenario) (res result) {
 				}
 			}
 			if step == sc.CancelAt && !overall.done {
+				mu.Lock()
+				noPark = true
+				mu.Unlock()
 				cancel(cause)
 				cancelled = true
 				vx.Wait()
@@ -934,8 +1004,13 @@ func genSet(rt *rapid.T, maxN int) setSpec {
 	return sp
 }
 
-func genScenario(rt *rapid.T) scenario {
-	sc := scenario{Variant: rapid.SampledFrom([]string{"quorum", "quorum", "without", "multi", "legacy"}).Draw(rt, "variant")}
+func genScenario(rt *rapid.T) scenario { return genScenarioOf(rt, "") }
+
+func genScenarioOf(rt *rapid.T, variant string) scenario {
+	sc := scenario{Variant: variant}
+	if variant == "" {
+		sc.Variant = rapid.SampledFrom([]string{"quorum", "quorum", "without", "multi", "legacy"}).Draw(rt, "variant")
+	}
 	nSets := 1
 	if sc.Variant == "multi" {
 		nSets = rapid.IntRange(2, 3).Draw(rt, "sets")
@@ -956,6 +1031,7 @@ func genScenario(rt *rapid.T) scenario {
 		sc.Minimize = rapid.Bool().Draw(rt, "minimize")
 		sc.Hedge = sc.Minimize && rapid.Bool().Draw(rt, "hedge")
 		sc.Sorter = rapid.Bool().Draw(rt, "sorter")
+		sc.SlowCleanup = rapid.Bool().Draw(rt, "slowCleanup") || (variant == "multi" && rapid.Bool().Draw(rt, "slowCleanup2"))
 	}
 	for i := 0; i < total; i++ {
 		o := rapid.SampledFrom([]string{"ok", "ok", "ok", "ok", "err", "err", "terminal"}).Draw(rt, "outcome")
@@ -984,13 +1060,23 @@ func genScenario(rt *rapid.T) scenario {
 	return sc
 }
 
-func TestQuorumRapid(t *testing.T) {
+// TestMultiSetsRapid: the multi-set executor only, mostly with blocking cleanup callbacks, so that one
+// set is still inside its last cleanup when another set decides the outcome.
+func TestMultiSetsRapid(t *testing.T) { quorumRapid(t, "multi") }
+
+func TestQuorumRapid(t *testing.T) { quorumRapid(t, "") }
+
+func quorumRapid(t *testing.T, variant string) {
 	rapid.Check(t, func(rt *rapid.T) {
-		sc := genScenario(rt)
+		sc := genScenarioOf(rt, variant)
 		res := run(t, sc)
 		vx.Eval(1)
 		vx.Class("variant_"+sc.Variant, 1)
 		vx.Class("outcome_"+res.class, 1)
+		if res.heldAcross {
+			vx.Class("finished_set_still_in_cleanup_while_another_set_ran", 1)
+			res.nontrivial = true
+		}
 		if res.nontrivial {
 			vx.NonTrivial(vx.FP(sc.String()))
 		}
